@@ -1,0 +1,6 @@
+//go:build !verif
+// +build !verif
+
+package reactive
+
+func verifEv(kind string, a, b interface{}) {}
